@@ -8,7 +8,7 @@ arbitrary histories of top-level operations (`Props/C11History.lean`):
 
 * `ledgerOf x` (`Proofs/DispositionFlush.lean`) — the serial of `x` if `x` is a user event (`G n` / `T n`: the events
   whose destruction the model logs in `edrops`), nothing otherwise; `pend q` — the serials of the user events in a queue;
-* `Acct n l` — the serials of `l` are pairwise distinct and all `< n`;
+* `Acct n l` — the serials of `l` are pairwise distinct and all in `(0, n)`;
 * `Led Z w := Acct w.nextESerial (Z ++ (pend w.queue ++ w.edrops))` — THE LEDGER INVARIANT: the serials that are
   pending in the queue, the serials destroyed so far, and a parameter list `Z` (serials destroyed by EARLIER operations —
   `step` clears `edrops` —, serials of the part of the queue `flushWith` has set aside, the serial of an event value
@@ -27,26 +27,27 @@ namespace EvLedger
 
 /-! ## accounting -/
 
-/-- the serials of `l` are pairwise distinct and all allocated (`< n`) -/
-def Acct (n : Nat) (l : List Nat) : Prop := l.Nodup ∧ ∀ s ∈ l, s < n
+/-- the serials of `l` are pairwise distinct and all allocated (`0 < s < n`; serial `0` is never allocated: the counter
+    starts at `1`) -/
+def Acct (n : Nat) (l : List Nat) : Prop := 0 < n ∧ l.Nodup ∧ ∀ s ∈ l, 0 < s ∧ s < n
 
 theorem Acct.perm {n : Nat} {l l' : List Nat} (h : Acct n l) (p : l.Perm l') : Acct n l' :=
-  ⟨p.nodup_iff.1 h.1, fun s hs => h.2 s (p.mem_iff.2 hs)⟩
+  ⟨h.1, p.nodup_iff.1 h.2.1, fun s hs => h.2.2 s (p.mem_iff.2 hs)⟩
 
 theorem Acct.sub {n : Nat} {l l' : List Nat} (h : Acct n l) (p : l'.Sublist l) : Acct n l' :=
-  ⟨h.1.sublist p, fun s hs => h.2 s (p.subset hs)⟩
+  ⟨h.1, h.2.1.sublist p, fun s hs => h.2.2 s (p.subset hs)⟩
 
 theorem Acct.mono {n n' : Nat} {l : List Nat} (h : Acct n l) (hn : n ≤ n') : Acct n' l :=
-  ⟨h.1, fun s hs => Nat.lt_of_lt_of_le (h.2 s hs) hn⟩
+  ⟨Nat.lt_of_lt_of_le h.1 hn, h.2.1, fun s hs => ⟨(h.2.2 s hs).1, Nat.lt_of_lt_of_le (h.2.2 s hs).2 hn⟩⟩
 
 /-- a freshly allocated serial is new -/
 theorem Acct.fresh {n : Nat} {l : List Nat} (h : Acct n l) : Acct (n + 1) (n :: l) := by
-  refine ⟨List.nodup_cons.2 ⟨fun hm => Nat.lt_irrefl _ (h.2 n hm), h.1⟩, fun s hs => ?_⟩
+  refine ⟨Nat.succ_pos _, List.nodup_cons.2 ⟨fun hm => Nat.lt_irrefl _ (h.2.2 n hm).2, h.2.1⟩, fun s hs => ?_⟩
   rcases List.mem_cons.1 hs with rfl | hs
-  · exact Nat.lt_succ_self _
-  · exact Nat.lt_succ_of_lt (h.2 s hs)
+  · exact ⟨h.1, Nat.lt_succ_self _⟩
+  · exact ⟨(h.2.2 s hs).1, Nat.lt_succ_of_lt (h.2.2 s hs).2⟩
 
-theorem Acct.nil (n : Nat) : Acct n [] := ⟨List.nodup_nil, fun _ h => nomatch h⟩
+theorem Acct.nil {n : Nat} (hn : 0 < n) : Acct n [] := ⟨hn, List.nodup_nil, fun _ h => nomatch h⟩
 
 /-- closes `List.Perm` goals between concatenations of the same lists -/
 macro "perm_app" : tactic =>
